@@ -102,7 +102,8 @@ def resolve(m, op):
         return {"op": k, "mech": op["mech"], "rows": _rows(op["rows"], N)}
     if k == "delete_channel":
         names = sorted(chans)
-        name = _pick(names, op["pick"])
+        # a deletion that belongs to a particular earlier insertion names its mechanism; otherwise any present channel
+        name = op["mech"] if (op.get("same_as_insert") or op.get("exact")) and op.get("mech") in chans else _pick(names, op["pick"])
         if name is None:
             return None
         rows = _rows(op["rows"], N)
